@@ -10,32 +10,47 @@ import sys
 ROOT = os.path.dirname(os.path.dirname(os.path.abspath(__file__)))
 
 
+def one(d):
+    sid = os.path.basename(d)
+    meta = json.load(open(os.path.join(d, "meta.json")))
+    checks = list(meta.get("checks_run", {})) or [meta["breaks_property"]]
+    wt = f"/tmp/seedreg_{sid}"
+    out_dir = f"/tmp/seedreg_out_{sid}"
+    subprocess.run(["git", "-C", "/repo", "worktree", "add", "-q", "--detach", wt, "HEAD"], check=True)
+    try:
+        r = subprocess.run(["git", "-C", wt, "apply", os.path.join(d, "patch.diff")], capture_output=True, text=True)
+        if r.returncode:
+            return (sid, "PATCH-DOES-NOT-APPLY", {}, [])
+        caught, how = {}, []
+        env = dict(os.environ, VERIF_OUT=out_dir, VERIF_EVIDENCE_DIR=out_dir + "/evidence")
+        for c in checks[:1]:
+            r = subprocess.run([os.path.join(ROOT, ".venv/bin/python"), os.path.join(ROOT, "tools", "try_seed.py"), wt, c], capture_output=True, text=True, env=env)
+            lines = [l.strip() for l in r.stdout.splitlines() if "VIOLATION" in l]
+            caught[c] = len(lines)
+            for l in lines:
+                name = l.split("replay=")[-1].split()[0].split("/")[-1]
+                how.append(("bounded" if name.startswith("bounded_") else "table" if name.startswith("table_") else "deductive")
+                           + (":no-input" if l.endswith("no-failing-input-found") else ""))
+        return (sid, "caught" if any(caught.values()) else "MISSED", caught, sorted(set(how)))
+    finally:
+        subprocess.run(["git", "-C", "/repo", "worktree", "remove", "--force", wt])
+        subprocess.run(["rm", "-rf", out_dir])
+
+
 def main():
+    import concurrent.futures as cf
     pat = sys.argv[1] if len(sys.argv) > 1 else ""
+    dirs = [d for d in sorted(glob.glob(os.path.join(ROOT, "seeded", "*"))) if os.path.isdir(d) and pat in os.path.basename(d)]
     out = []
-    for d in sorted(glob.glob(os.path.join(ROOT, "seeded", "*"))):
-        sid = os.path.basename(d)
-        if pat not in sid:
-            continue
-        meta = json.load(open(os.path.join(d, "meta.json")))
-        checks = list(meta.get("checks_run", {})) or [meta["breaks_property"]]
-        wt = f"/tmp/seedreg_{sid}"
-        subprocess.run(["git", "-C", "/repo", "worktree", "add", "-q", "--detach", wt, "HEAD"], check=True)
-        try:
-            r = subprocess.run(["git", "-C", wt, "apply", os.path.join(d, "patch.diff")], capture_output=True, text=True)
-            if r.returncode:
-                out.append((sid, "PATCH-DOES-NOT-APPLY", ""))
-                continue
-            caught = {}
-            for c in checks[:1]:
-                r = subprocess.run([os.path.join(ROOT, ".venv/bin/python"), os.path.join(ROOT, "tools", "try_seed.py"), wt, c], capture_output=True, text=True)
-                caught[c] = sum(1 for l in r.stdout.splitlines() if "VIOLATION" in l)
-            out.append((sid, "caught" if any(caught.values()) else "MISSED", caught))
-        finally:
-            subprocess.run(["git", "-C", "/repo", "worktree", "remove", "--force", wt])
-        print(out[-1], flush=True)
+    with cf.ThreadPoolExecutor(int(os.environ.get("SEEDREG_JOBS", "3"))) as ex:
+        for res in ex.map(one, dirs):
+            out.append(res)
+            print(res, flush=True)
     missed = [o for o in out if o[1] != "caught"]
+    ded = [o[0] for o in out if any(h.startswith(("deductive", "table")) for h in o[3])]
     print(f"{len(out) - len(missed)}/{len(out)} seeds caught; not caught: {[o[0] for o in missed]}")
+    print(f"{len(ded)} seeds are caught (also) by a failing deductive / table obligation: {ded}")
+    json.dump([dict(seed=o[0], verdict=o[1], violation_lines=o[2], by=o[3]) for o in out], open(os.path.join(ROOT, "seeded", "REGRESSION.json"), "w"), indent=1)
     return 1 if missed else 0
 
 
